@@ -308,6 +308,21 @@ def get_used_or_defined_symbols(routine):
             for v in used_or_defined_symbols
         )
 
+        # The declarations of symbols that are kept may themselves reference other
+        # symbols in their kind or initialisation expression (e.g. PARAMETERs)
+        worklist = list(used_or_defined_symbols) + list(routine.arguments)
+        visited = set()
+        while worklist:
+            name = worklist.pop().name_parts[0].lower()
+            if name in visited or name not in variable_map:
+                continue
+            visited.add(name)
+            _type = variable_map[name].type
+            exprs = tuple(e for e in (_type.kind, _type.initial) if e is not None)
+            referenced = FindVariables(unique=True).visit(exprs)
+            used_or_defined_symbols |= OrderedSet(v.clone(dimensions=None) for v in referenced)
+            worklist.extend(referenced)
+
     return used_or_defined_symbols
 
 
